@@ -2,6 +2,7 @@ package props
 
 import (
 	"fmt"
+	"github.com/remieven/ysgo/variable"
 	"strings"
 
 	"github.com/remieven/ysgo/verifharness/core"
@@ -73,7 +74,7 @@ func (c17) Thresholds(tier string) map[string]int64 {
 }
 
 func (c17) Rule() string {
-	return "case = one script of 30 generic commands <<name arg ...>> separated by lines, each registered under its name with a logging raw handler, plus one command under an unregistered name (must be an error) and a final <<stop>> with a handler registered under 'stop' (must never be invoked). Names: plain identifiers incl. multi-byte, and every keyword as a prefix (" + strings.Join(c17KeywordNames, ", ") + "); words: a hostile pool (" + strings.Join(c17HostileWords, " ") + ") and plain words incl. multi-byte and punctuation; {expression} arguments of each type surrounded by blanks; separators: single blank, runs of blanks, tabs, mixtures, also before >>. Oracle: the handler log (name, typed argument list, once, in order) equals the model's: a word is a boolean iff it is exactly true/false, a number iff it matches -?[0-9]+(\\.[0-9]+)?, otherwise a string; expressions arrive as their value. Further sub-workloads: two {expressions} written back to back (two arguments, nothing between them); a node that runs 2-5 commands over compound expressions of $n/$b/$s, changes the variables and jumps back to itself (every execution must deliver the values as they evaluate then); two runners over one script where the second registers another handler under the same name or none (each command reaches the handler of its own runner; a name registered only elsewhere is an error). Non-trivial: >=2 arguments of >=2 expected types, or a keyword-prefixed name, or a hostile word. Distinct by hash of the command's source text. Names beginning with else/endif/endenum are the known finding K3 and run in a sub-workload of their own."
+	return "case = one script of 30 generic commands <<name arg ...>> separated by lines, each registered under its name with a logging raw handler, plus one command under an unregistered name (must be an error) and a final <<stop>> with a handler registered under 'stop' (must never be invoked). Names: plain identifiers incl. multi-byte, and every keyword as a prefix (" + strings.Join(c17KeywordNames, ", ") + "); words: a hostile pool (" + strings.Join(c17HostileWords, " ") + ") and plain words incl. multi-byte and punctuation; {expression} arguments of each type surrounded by blanks; separators: single blank, runs of blanks, tabs, mixtures, also before >>. Oracle: the handler log (name, typed argument list, once, in order) equals the model's: a word is a boolean iff it is exactly true/false, a number iff it matches -?[0-9]+(\\.[0-9]+)?, otherwise a string; expressions arrive as their value. The raw handlers keep the argument slices they receive; at the end of the script each is compared with what it held when it was received. Further sub-workloads: two {expressions} written back to back (two arguments, nothing between them); a node that runs 2-5 commands over compound expressions of $n/$b/$s, changes the variables and jumps back to itself (every execution must deliver the values as they evaluate then); two runners over one script where the second registers another handler under the same name or none (each command reaches the handler of its own runner; a name registered only elsewhere is an error). Non-trivial: >=2 arguments of >=2 expected types, or a keyword-prefixed name, or a hostile word. Distinct by hash of the command's source text. Names beginning with else/endif/endenum are the known finding K3 and run in a sub-workload of their own."
 }
 
 func (c17) Assumptions() []string {
@@ -215,6 +216,32 @@ func (p c17) Run(c *core.Ctx) {
 		c.Violate("a script of generic commands failed to load", map[string]any{"readers": scripts, "error": fmt.Sprint(err), "panic": pan})
 		return
 	}
+	// the handlers keep the argument slices they were given (a host that queues commands): what a handler
+	// received stays what it received when later commands run
+	type keptArgs struct {
+		name  string
+		slice []*variable.Value
+		copy  string
+	}
+	var kept []keptArgs
+	render := func(args []*variable.Value) string {
+		a := make([]model.Val, len(args))
+		for i, v := range args {
+			a[i], _ = mon.ToVal(v)
+		}
+		return mon.FmtArgs(a)
+	}
+	for _, nm := range names {
+		nm := nm
+		pair.R.DR.AddCommand(nm, func(args []*variable.Value) <-chan error {
+			txt := render(args)
+			pair.RLog.Add("<<" + nm + " " + txt + ">>")
+			kept = append(kept, keptArgs{nm, args, txt})
+			ch := make(chan error, 1)
+			ch <- nil
+			return ch
+		})
+	}
 	stopCalls := 0
 	pair.R.DR.AddCommand("stop", mon.AdaptCmd(func(a []model.Val) error {
 		stopCalls++
@@ -235,6 +262,14 @@ func (p c17) Run(c *core.Ctx) {
 	if stopCalls != 0 {
 		c.Violate("<<stop>> was dispatched to a handler", map[string]any{"readers": scripts, "trace": pair.Trace})
 		return
+	}
+	for i, k := range kept {
+		c.Feature("kept-argument-slices-rechecked")
+		if now := render(k.slice); now != k.copy {
+			c.Violate("the arguments a handler received changed after it returned (when later commands ran)", map[string]any{
+				"readers": scripts, "command_index": i, "command": k.name, "received": k.copy, "now": now})
+			return
+		}
 	}
 	c.Feature("stop-not-dispatched")
 	for _, st := range body {
